@@ -25,7 +25,7 @@ SPEC = {
     "vk_to_lower_ascii": {"cap_is_n": True},
     "vk_parse_state": {"skip": True}, "vk_set_limit": {"skip": True}, "vk_capi_get": {"state": True}, "vk_capi_owned": {"skip": True},
     "vk_capi_failed_mutators": {"max_n": 6}, "vk_canon": {"p0": [0, 1, 2, 3, 4, 5, 6, 7], "p1": [0, 1, 4, 5], "max_n": 5},
-    "vk_char_class": {"p0": list(range(0, 256, 3))}, "vk_fast_path": {"max_n": 14}, "vk_shorten_path": {"p0": [0, 1, 6], "p1": [0, 1], "max_n": 14}, "vk_puny_verify": {"max_n": 3}, "vk_puny_decode": {"max_n": 3}, "vk_puny_encode": {"min_n": 4, "max_n": 8}, "vk_escape": {"p0": [0, 1], "max_n": 7}, "vk_ensure_tables": {"skip": True}, "vk_tables_published": {"skip": True}, "vk_tables_env_publish": {"skip": True},
+    "vk_char_class": {"p0": list(range(0, 256, 3))}, "vk_fast_path": {"max_n": 14}, "vk_url_fields_step": {"skip": True}, "vk_shorten_path": {"p0": [0, 1, 6], "p1": [0, 1], "max_n": 14}, "vk_puny_verify": {"max_n": 3}, "vk_puny_decode": {"max_n": 3}, "vk_puny_encode": {"min_n": 4, "max_n": 8}, "vk_escape": {"p0": [0, 1], "max_n": 7}, "vk_ensure_tables": {"skip": True}, "vk_tables_published": {"skip": True}, "vk_tables_env_publish": {"skip": True},
 }
 _corpus_cache = {}
 _lock = threading.Lock()
@@ -198,6 +198,8 @@ def run(eng, obls):
 
 
 def tv_unit(eng, u, cpath):
+    if getattr(u, "atomics_hook", False):
+        return {"skipped": True}
     from engine import STR_STUBS, TO_ASCII
     if u.stubs and sorted(x for x in u.stubs if x != TO_ASCII) != sorted(STR_STUBS):
         return {"skipped": True}
